@@ -1160,6 +1160,26 @@ func FromGoRegexp(pattern string) (*Re, error) {
 	if err != nil {
 		return nil, err
 	}
+	return fromGoRegexpNode(rx)
+}
+
+// fromGoRegexpNode: the search language of one parsed pattern. A top-level alternation is the union of the search
+// languages of its branches (each branch may carry its own ^ / $: "^a|b$" means "starts with a, or ends with b").
+func fromGoRegexpNode(rx *syntax.Regexp) (*Re, error) {
+	if rx.Op == syntax.OpAlternate {
+		var alts []*Re
+		for _, sub := range rx.Sub {
+			r, err := fromGoRegexpNode(sub)
+			if err != nil {
+				return nil, err
+			}
+			alts = append(alts, r)
+		}
+		return reAlt(alts...), nil
+	}
+	if rx.Op == syntax.OpCapture && len(rx.Sub) == 1 && rx.Sub[0].Op == syntax.OpAlternate {
+		return fromGoRegexpNode(rx.Sub[0])
+	}
 	anchored := false
 	switch {
 	case rx.Op == syntax.OpBeginText:
